@@ -54,19 +54,19 @@ def seg_case(ck, c, f=None, tag='plain', scale=1.0, reassigned_from=None):
         return bad('raises-' + type(e).__name__, 'raised %r' % e, 'extremes', repr(e))
     if not (0 <= tmin <= 1 and 0 <= tmax <= 1):
         return bad('parameter-out-of-range', 't = %r, %r' % (tmin, tmax), '[0,1]', (tmin, tmax))
-    if abs(abs(seg.point(tmin) - z) - dmin) > 1e-9 * size or abs(abs(seg.point(tmax) - z) - dmax) > 1e-9 * size:
+    if not (abs(abs(seg.point(tmin) - z) - dmin) <= 1e-9 * size) or not (abs(abs(seg.point(tmax) - z) - dmax) <= 1e-9 * size):
         return bad('distance-not-at-parameter', 'd != |point(t) - z|: %r vs %r, %r vs %r' % (dmin, abs(seg.point(tmin) - z), dmax, abs(seg.point(tmax) - z)),
                    (abs(seg.point(tmin) - z), abs(seg.point(tmax) - z)), (dmin, dmax))
-    if dmin > min(wit) + 1e-7 * size:
+    if not (dmin <= min(wit) + 1e-7 * size):
         return bad('closer-witness-exists', 'dmin = %r at t = %r but the witness t = %d/%d is at distance %r' % (dmin, tmin, wit.index(min(wit)), W, min(wit)), min(wit), dmin)
-    if dmax < max(wit) - 1e-7 * size:
+    if not (dmax >= max(wit) - 1e-7 * size):
         return bad('farther-witness-exists', 'dmax = %r at t = %r but the witness t = %d/%d is at distance %r' % (dmax, tmax, wit.index(max(wit)), W, max(wit)), max(wit), dmax)
     if n == 1:
         et = c['linet'][0] / float(c['linet'][1])
         ed = math.sqrt(c['lined2'][0] / float(c['lined2'][1])) * scale
-        if abs(tmin - et) > 1e-9 or abs(dmin - ed) > 1e-9 * size:
+        if not (abs(tmin - et) <= 1e-9) or not (abs(dmin - ed) <= 1e-9 * size):
             return bad('line-projection', '(dmin, tmin) = (%r, %r), projection gives (%r, %r)' % (dmin, tmin, ed, et), (ed, et), (dmin, tmin))
-        if abs(dmax - max(wit[0], wit[-1])) > 1e-9 * size or tmax not in (0, 1):
+        if not (abs(dmax - max(wit[0], wit[-1])) <= 1e-9 * size) or tmax not in (0, 1):
             return bad('line-farthest', 'dmax = %r at %r, farthest end point is at %r' % (dmax, tmax, max(wit[0], wit[-1])), max(wit[0], wit[-1]), dmax)
     if c['oncurve'] and dmin > 1e-6 * size:
         return bad('on-curve-point', 'z = point(%s/%d) lies on the curve but dmin = %r' % (c['oncurve'], W, dmin), 0, dmin)
